@@ -134,7 +134,7 @@ func run(c *hl.Ctx) error {
 			jobs = append(jobs, lay.Job{Src: src, Engine: e, Render: true, Tag: "witness"})
 		}
 	}
-	nProg := lay.DevN(c.Pick(320, 25000))
+	nProg := lay.DevN(c.Pick(320, 6000))
 	weights := []string{"core", "styled", "styled", "grid", "seq", "near", "nested", "names", "names", "boards"}
 	for i := 0; i < nProg; i++ {
 		p := weights[i%len(weights)]
@@ -143,8 +143,12 @@ func run(c *hl.Ctx) error {
 			jobs = append(jobs, lay.Job{Src: src, Engine: e, Render: true, Tag: p})
 		}
 	}
-	res := lay.RunAll(jobs, runtime.NumCPU())
+	res := lay.RunAll(jobs, runtime.NumCPU(), lay.QuickBudget(c.Quick()), 32)
 	for i, rr := range res {
+		if rr == nil {
+			c.Count("budget:not-run")
+			continue
+		}
 		c.Emit(layCase(rr))
 		c.Count("lay:" + jobs[i].Tag + ":" + rr.Engine)
 		if rr.Compile != "ok" {
